@@ -49,6 +49,7 @@ fn gen_run(rng: &mut Rng, sub: &str, thorough: bool, base: Option<&Params>, via_
             dup_id_pct: 0,
             mega_1_in: 0,
             twin_mega_1_in: 0,
+            many_1_in: 1500,
     };
     let records = g.gen(rng);
     let container = gen_container(rng, &records, false, true);
